@@ -3,9 +3,21 @@
    conflict, local_diff, remote_diff, and custom_diff / similar_insert / strategy when present. *)
 From Coq Require Import String.
 From Coq Require Import List NArith ZArith Bool.
-From NB Require Import Base.Res Base.Json Base.PyStr Diff.DiffFormat Diff.Patch Diff.GenericDiff
-     Diff.Codec Merge.SortKey Merge.Chunks Merge.Decisions Merge.Apply Merge.MergeGeneric
-     Gen.MergeFacts Gen.NbConfig Extract.Api.
+From NB Require Import Base.Res.
+From NB Require Import Base.Json.
+From NB Require Import Base.PyStr.
+From NB Require Import Diff.DiffFormat.
+From NB Require Import Diff.Patch.
+From NB Require Import Diff.GenericDiff.
+From NB Require Import Diff.Codec.
+From NB Require Import Merge.SortKey.
+From NB Require Import Merge.Chunks.
+From NB Require Import Merge.Decisions.
+From NB Require Import Merge.Apply.
+From NB Require Import Merge.MergeGeneric.
+From NB Require Import Gen.MergeFacts.
+From NB Require Import Gen.NbConfig.
+From NB Require Import Extract.Api.
 Import ListNotations.
 
 Definition k_action := of_ascii "action".
